@@ -74,7 +74,9 @@ structure DState where
   comps : List State
   ncells : Nat
 
-def isShared (c : CellH) : Bool := c.kind = "s" || c.kind = "S"
+def isShared (c : CellH) : Bool := c.kind = "s" || c.kind = "S" || c.kind = "O"
+/-- contracts made with `MakeContractOn(e2)` / `MakeSharedContractOn(e2)` store executor 2 in the awaited core -/
+def cellExec (c : CellH) : Nat := if c.kind = "o" || c.kind = "O" then 2 else 0
 def isLazy (c : CellH) : Bool := c.kind = "t" || c.kind = "T" || c.kind = "k" || c.kind = "K"
 
 def initD (hdr : List String) : Option DState := do
@@ -86,7 +88,7 @@ def initD (hdr : List String) : Option DState := do
   let comps := (List.range n).zip coros |>.map fun (i, c) =>
     let cw : List CellW := (List.range cells.length).zip cells |>.map fun (j, ch) =>
       let others := ch.sub || ((List.range n).zip coros).any fun (i', c') => i' != i && mentions c' j
-      { shared := isShared ch, others := isShared ch && others, lazy := isLazy ch, res := ch.res, exec0 := 0 }
+      { shared := isShared ch, others := isShared ch && others, lazy := isLazy ch, res := ch.res, exec0 := cellExec ch }
     init { prog := c.ops, cells := cw, ret := c.ret, catches := c.catches, locals := c.locals }
   pure { comps := comps, ncells := cells.length }
 
